@@ -13,6 +13,9 @@ import native
 import checklib
 import kanirun
 import c04
+import c03
+import flowlib
+import re
 from values import *      # noqa
 
 KANI = ['c04_prefix_wildcard_matches_only_under_prefix', 'c04_exact_and_star']
@@ -92,9 +95,60 @@ def confirm_hash(v):
     return bad, desc
 
 
+def flow_oracle(case, arg):
+    """the statement's composed law on concrete values -> (patch, label|None, number|None|'hash', post|None, dev_expected)"""
+    x, y, z = [int(p) for p in case['tag'].split('.')]
+    rules = py_rules(arg.get('rules', 'default'))
+    el, em, en = py_oracle(rules, case.get('branch'), arg.get('label'), arg.get('mode'), arg.get('num'))
+    dist = case.get('distance') or 0
+    dirty = case.get('dirty') is True
+    if arg.get('dirty_flag'):
+        dirty = True
+    if arg.get('no_dirty_flag'):
+        dirty = False
+    ahead = dist > 0
+    eff_dirty = dirty or (em == 'tag' and ahead and not (arg.get('dirty_flag') or arg.get('no_dirty_flag')))
+    moved = eff_dirty or ahead
+    tag_post = case.get('tag_post')
+    if not moved:
+        return z, None, None, tag_post, False
+    if em == 'commit':
+        post = (tag_post or 0) + dist if case.get('distance') is not None else tag_post
+    else:
+        post = (tag_post or 0) + 1
+    return z + 1, el, (en if en is not None else 'hash'), post, ((dirty or ahead) if em == 'tag' else dirty)
+
+
+def confirm_law(v):
+    arg, case = v['arg'], v['case']
+    r = flowlib.run_native(arg, case, 'semver', schema='standard-base-prerelease-post-dev')
+    desc = 'case=%s flags=%s -> %s' % (case, {k2: arg[k2] for k2 in ('rules', 'mode', 'label', 'num', 'hash_len', 'dirty_flag', 'no_dirty_flag') if arg.get(k2) is not None}, r.get('out', r.get('err', r.get('panic'))))
+    if 'panic' in r:
+        return True, desc
+    if v['clause'] == 'flow_error':
+        return not r.get('ok'), desc
+    if not r.get('ok'):
+        return False, desc
+    m = re.fullmatch(r'(\d+)\.(\d+)\.(\d+)(?:-(?:(alpha|beta|rc)\.(\d+))?\.?(?:post\.(\d+))?\.?(?:dev\.(\d+))?)?', r['out'])
+    if not m:
+        return True, desc + ' (unparseable)'
+    ep, el, en, epost, edev = flow_oracle(case, arg)
+    got = (int(m.group(3)), m.group(4), None if m.group(5) is None else int(m.group(5)), None if m.group(6) is None else int(m.group(6)), m.group(7) is not None)
+    bad = got[0] != ep or got[1] != el or got[3] != epost or got[4] != edev
+    if en != 'hash' and got[2] != en:
+        bad = True
+    if en == 'hash' and (got[2] is None or len(str(got[2])) > arg.get('hash_len', 5)):
+        bad = True
+    return bad, desc + ' expected patch=%s label=%s num=%s post=%s dev=%s' % (ep, el, en, epost, edev)
+
+
 def main():
     ck = checklib.Check('C04', 'Flow derives pre-release, post and dev parts from the documented branch rules')
-    ck.setup(char_ops=['alnum', 'lower', 'ws', 'width'])
+    engine.dump_mir()
+    native.build()
+    I0 = engine.make_interp()
+    import relang
+    ck.load_alphabet([relang.regex_of_static(I0, 'SEMVER_REGEX').pattern, relang.regex_of_static(I0, 'PEP440_REGEX').pattern], char_ops=['alnum', 'lower', 'ws', 'width'])
     quick = ck.tier == 'quick'
     t0 = time.time()
     kres = kanirun.run_all(KANI, jobs=2, timeout_s=900)
@@ -122,8 +176,8 @@ def main():
     ck.bounds = dict(rule_sets=list(c04.RULESETS), branch='absent, or every name of length 0..%d over {a,b,d,l,r,v,/,-,0,1,9,x,two non-ASCII}; for the default GitFlow rules: release/ release develop feature/ + up to %d free chars, 9-11 digit segments' % (5 if quick else 7, 3 if quick else 5),
                      flags='--pre-release-label / --post-mode enumerated, --pre-release-num symbolic presence and any u32',
                      hash='value of %s chars over the full alphabet, every length 1..10, allow_leading_zero absent/true/false' % ('1-2' if quick else '0-3'))
-    ck.outside = ['the composed flow law tag x distance x dirty -> patch/post/dev (needs the Tera renderer and the RON hand-over between the two pipeline passes, neither of which has MIR in the crate): see DESIGN',
-                  'branch names longer than the bound']
+    ck.outside = ['branch names longer than the bound', 'the composed law is decided for the flow cases of C03 (one-digit numbers, sources none/stdin); git sources are C02',
+                  'Tera templates outside the fixed family flow builds (the model answers unsupported); every reported flow result is replayed through the real pipeline']
     ck.assumptions = ['DefaultHasher (fixed SipHash keys) modelled as an uninterpreted u64 function of the written data', 'python models of str/Vec/Option/iterator functions (models_used)',
                       'oracle = rule semantics transcribed from the statement']
     deadline = time.time() + (600 if quick else 3600)
@@ -132,15 +186,18 @@ def main():
                                          expect_tags=['applied', 'rule:none', 'rule:*', 'rule:rl/*', 'rule:release/*', 'rule:develop'])]
     ex2 = engine.explore('c04', 'path_hash', hargs, jobs=ck.jobs, deadline=time.time() + 600)
     cands += [('h', v) for v in ck.absorb('hash_int(value, length): <= length digits, no leading zero, deterministic, accepted as u32', ex2, bounds=dict(configs=len(hargs)), expect_tags=['hashed', 'fits_u32'])]
+    fcases = [a for a in c03.flow_cases(ck.tier) if a.get('schema') in (None, 'standard')]
+    ex3 = engine.explore('c03', 'path_law', fcases, jobs=ck.jobs, deadline=time.time() + (600 if quick else 3600))
+    cands += [('law', v) for v in ck.absorb('flow result = composed law(tag, rule, distance, dirty, flags)', ex3, bounds=dict(configs=len(fcases)), expect_tags=['flow_ok', 'law_holds'])]
     seen = set()
     for kind, v in cands:
         key = json.dumps(v, sort_keys=True, default=str)
         if key in seen:
             continue
         seen.add(key)
-        ok, desc = (confirm_rules if kind == 'r' else confirm_hash)(v)
+        ok, desc = {'r': confirm_rules, 'h': confirm_hash, 'law': confirm_law}[kind](v)
         ck.validated += 1
-        cls = v['clause'] if kind == 'r' else '%s:length%d' % (v['clause'], v['length'])
+        cls = v['clause'] if kind != 'h' else '%s:length%d' % (v['clause'], v['length'])
         (ck.confirmed if ok else ck.not_reproduced)(cls, v['clause'] + ': ' + desc, dict(v, kind=kind))
     ck.finish()
 
@@ -153,7 +210,7 @@ def replay(path):
         v = e['replay']
         if v.get('kind') == 'kani':
             continue
-        ok, desc = (confirm_rules if v['kind'] == 'r' else confirm_hash)(v)
+        ok, desc = {'r': confirm_rules, 'h': confirm_hash, 'law': confirm_law}[v['kind']](v)
         print('replay:', desc, '-> violated' if ok else '-> holds')
         worst = max(worst, int(ok))
     native.driver().close()
